@@ -372,6 +372,10 @@ def interactions(repo, chk):
                 chk.unsure('C18.4e', 'R15', fn.site(wr[0]['node']), show(recv)[:160], 'the frame written to feature_singles_aggregated.tsv is built with operations outside the vocabulary of the accepted forms')
     if not seen_skip and 'C18.4a' not in problems and seen_write:
         problems.setdefault('C18.4a', (fn.node, 'the aggregated table must be produced exactly when interaction_order > 1 (it is produced unconditionally)'))
+    evaluated = [r for _a, r in paths if r.unknown is None]
+    if not seen_write and 'C18.4a' not in problems and evaluated and len(evaluated) == len(paths) and not any('C18.4' in o.oid for o in chk.obs if o.status != 'discharged'):
+        # every path was evaluated and none of them writes the aggregated table
+        problems.setdefault('C18.4a', (fn.node, 'no path of handle_interaction_order writes feature_singles_aggregated.tsv: with interaction_order > 1 the per-constituent table is never produced'))
     good = {'C18.4a': 'aggregated table only for interaction order > 1', 'C18.4b': "constituents = name part before '-' split on ' AND '", 'C18.4c': 'each constituent collects the score of every interaction it takes part in',
             'C18.4d': 'only interaction features contribute', 'C18.4e': 'per constituent: median of the collected scores', 'C18.4f': 'every row of the summary is visited', 'C18.4g': 'the aggregated table is written to feature_singles_aggregated.tsv'}
     for oid, why_ok in good.items():
